@@ -525,11 +525,14 @@ theorem flushStreams_sf (h : SF cfg G L r) : SF cfg G L (flushStreams r) := by
 
 theorem responseHeaders_sf (st : Strm) (resp : Resp) (hb : Bool) (h : SF cfg G L r) :
     SF cfg G L (responseHeaders r st resp hb) := by
+  have hstep : ∀ (r : R) (o : Out), SF cfg G L r → o.isBlock = true → SF cfg G L (r.emit o) := by
+    intro r o h ho
+    cases o <;> first | exact SF.emit h _ rfl trivial | (simp [Out.isBlock] at ho)
   simp only [responseHeaders]
   split
-  · refine SF.emit ?_ _ rfl trivial
+  · refine emits_inv (SF cfg G L) _ hstep _ _ (blockOuts_isBlock _ _ _ _ _) ?_
     exact h.congr rfl rfl rfl
-  · refine SF.emit ?_ _ rfl trivial
+  · refine emits_inv (SF cfg G L) _ hstep _ _ (blockOuts_isBlock _ _ _ _ _) ?_
     exact h.congr rfl rfl rfl
 
 theorem finishRequest_sf (uid : Nat) (resp : Resp) (h : SF cfg G L r) : SF cfg G L (finishRequest r uid resp).1 := by
